@@ -1039,9 +1039,9 @@ func c07WeakDeep(c *Ctx) {
 		cells int
 		kpow  int
 	}
-	cases := []wd{{8200, 2}, {10000, 2}, {4100, 3}}
+	cases := []wd{{8200, 2}, {10000, 2}, {4100, 3}, {16300, 2}, {21000, 2}}
 	if !c.Quick {
-		cases = append(cases, wd{16300, 2}, wd{10000, 3}, wd{33000, 2}, wd{8111, 2}, wd{2050, 4})
+		cases = append(cases, wd{10000, 3}, wd{33000, 2}, wd{8111, 2}, wd{2050, 4}, wd{16222, 2}, wd{40000, 1}, wd{66000, 2})
 	}
 	parallelFor(len(cases), func(i int) {
 		k := cases[i]
@@ -1080,6 +1080,24 @@ func c07WeakDeep(c *Ctx) {
 		c.Eval(2)
 		desc := fmt.Sprintf("11 balls of 1..25 cells, one next to each corner of [-1,1]^3 and 3 inside, field f vs f*2^-%d", k.kpow)
 		cs := c07Case{Index: i, Dim: 3, Cells: k.cells, Family: "weak-field-deep-tree", Shape: desc, TrisP: len(a), TrisU: len(b), ScaleK: k.kpow}
+		// both renders may lose the same part (a tree that does not reach the far end of the box): every ball must be there
+		balls := mk(1)
+		got := make([]int, len(balls.c))
+		for _, t := range a {
+			for q := range balls.c {
+				if d := t[0].Sub(balls.c[q]).Length(); d < balls.r[q]+2*h {
+					got[q]++
+					break
+				}
+			}
+		}
+		for q, n := range got {
+			// a ball of radius >= 1.2 cells crosses lattice edges whatever its position: it has triangles
+			if n == 0 {
+				c.Violate("", fmt.Sprintf("octree-weak-deep cells=%d %s: ball %d (r=%.3g cells at %v) has no triangle at all in the render of f", k.cells, desc, q, balls.r[q]/h, balls.c[q]), cs)
+				return
+			}
+		}
 		if m, e := diffTriangles(a, b, 0); m+e > 0 || len(a) != len(b) || len(a) == 0 {
 			if n := snap.Load(); n > 0 && len(a) > 0 && int64(m+e) <= 80*n {
 				// a lattice node lies within 1e-12/scale of the surface: the (at most 8 cubes x 5 triangles, either render) around it may differ
